@@ -649,6 +649,8 @@ class Lib:
     def await_value(self, I, v, fr, node):
         if isinstance(v, LibObj) and hasattr(v, "awaited"):
             return v.awaited(I, fr, node)
+        if isinstance(v, Obj) and v.typ.kind == "opaque" and tname(v.typ) in getattr(self, "await_opaque", {}):
+            return self.await_opaque[tname(v.typ)](I, v, fr, node)
         if v is None or isinstance(v, (Sym, Obj, str, int)):
             return v  # result of an already-run library coroutine model
         raise Unsupported(f"await of {v!r}")
